@@ -12,18 +12,32 @@ theorem inv_all_schedules {σ loc : Type} (S : Sys σ loc) (Inv : Config σ loc 
     (hstep : ∀ (c : Config σ loc) (i : Nat) (l : loc) (s' : σ) (l' : loc), Inv c → c.locals[i]? = some l →
       S.step i c.shared l = some (s', l') → Inv { shared := s', locals := c.locals.set i l' })
     (sched : List Nat) (c : Config σ loc) (h : Inv c) : Inv (run S c sched) := by
-  sorry
+  induction sched generalizing c with
+  | nil => exact h
+  | cons i rest ih =>
+    unfold run
+    split
+    · exact ih c h
+    · rename_i l hl
+      split
+      · exact ih c h
+      · rename_i s' l' hs
+        exact ih _ (hstep c i l s' l' h hl hs)
 
 /-- AT NO INSTANT are more than `m` protected functions in flight: for every limit m ≥ 0, every number of callers
     n and every schedule -/
 theorem inflight_le_limit (m : Int) (hm : 0 ≤ m) (n : Nat) (sched : List Nat) :
     (inFlight (run sys (init m n) sched) : Int) ≤ m := by
-  sorry
+  have h := inv_all_schedules sys (fun c => GInv m c.shared c.locals)
+    (fun c i l s' l' hc hi hs => hc.step hi hs) sched (init m n) (GInv.init m n)
+  exact h.inFlight_le hm
 
 /-- a negative limit means unlimited: nobody is ever refused -/
 theorem negative_unlimited (m : Int) (hm : m < 0) (n : Nat) (sched : List Nat) :
     ∀ l ∈ (run sys (init m n) sched).locals, l ≠ .rejecting ∧ l ≠ .finished false := by
-  sorry
+  have h := inv_all_schedules sys (fun c => NoReject m c.shared c.locals)
+    (fun c i l s' l' hc hi hs => hc.step hm hi hs) sched (init m n) (NoReject.init m n)
+  exact h.2
 
 /-- the gauge counts exactly the callers between their increment and their decrement, and is never negative -/
 theorem gauge_counts_region (m : Int) (n : Nat) (sched : List Nat) :
@@ -31,22 +45,37 @@ theorem gauge_counts_region (m : Int) (n : Nat) (sched : List Nat) :
     c.shared.gauge = c.shared.region.length ∧
     c.shared.region.length = (c.locals.filter fun l => match l with
       | .incd _ | .running | .rejecting | .leaving => true | _ => false).length := by
-  sorry
+  have h := inv_all_schedules sys (fun c => GInv m c.shared c.locals)
+    (fun c i l s' l' hc hi hs => hc.step hi hs) sched (init m n) (GInv.init m n)
+  refine ⟨h.gauge, ?_⟩
+  rw [h.len, List.countP_eq_length_filter]
+  congr 2
 
 /-- NO LEAK: once all calls have returned — by normal return, by panic or by rejection — the gauge reads zero -/
 theorem quiescent_gauge_zero (m : Int) (n : Nat) (sched : List Nat)
     (hq : allFinished (run sys (init m n) sched) = true) : (run sys (init m n) sched).shared.gauge = 0 := by
-  sorry
+  have h := inv_all_schedules sys (fun c => GInv m c.shared c.locals)
+    (fun c i l s' l' hc hi hs => hc.step hi hs) sched (init m n) (GInv.init m n)
+  have h0 := allFinished_countP hq
+  have h1 := h.len
+  have h2 := h.gauge
+  omega
 
 /-- a refused call never runs the function: `finished false` is reached only through `rejecting`, and a thread that
     was ever `running` finishes with `true` (stated on the step function) -/
 theorem rejected_never_runs (tid : Nat) (s s' : Shared) (l : Local) (h : step tid s l = some (s', .finished false)) :
     l = .rejecting := by
-  sorry
+  cases l with
+  | rejecting => rfl
+  | incd obs =>
+    simp only [step] at h
+    split at h <;> simp at h
+  | _ => simp [step] at h
 
 /-- with limit 0 everybody is refused; with limit ≥ number of callers nobody is -/
 theorem limit_zero_rejects_all (n : Nat) (sched : List Nat) : inFlight (run sys (init 0 n) sched) = 0 := by
-  sorry
+  have := inflight_le_limit 0 (Int.le_refl 0) n sched
+  omega
 
 /-- non-vacuity: limit 1, three callers, a schedule in which the second and third are refused while the first is inside -/
 example : (run sys (init 1 3) [0, 0, 1, 1, 2, 2, 1, 2, 0, 0]).locals = [.finished true, .finished false, .finished false] := by decide
